@@ -80,6 +80,18 @@ inductive Op where
   | tick | start | stop | conf | trigger | kill | await
   deriving DecidableEq, Repr, Inhabited
 
+/-- The shape in which the command reaches prepareTaskCmd (task.go): TaskCommandInfo.Shell and .Arguments.
+    `sh` / `sha`: run through `/bin/sh -c` (value alone / value and arguments joined by spaces);
+    `ex` / `exa`: exec'd directly (without / with arguments).
+    prepareTaskCmd gives the child a process group of its own (`SysProcAttr.Setpgid`) whatever the shape
+    (`ownGroup`, identified with the source in Props/C17), and every termination site addresses the task by that
+    group or by the device's pid: nothing in the executor's control logic depends on the shape. The model
+    therefore does NOT look at it (`runIn`), and the correspondence run compares the real executor's behaviour
+    for every shape with the same model run. -/
+inductive Shape where
+  | sh | sha | ex | exa
+  deriving DecidableEq, Repr, Inhabited
+
 /-- terminal mesos.TaskState values. -/
 inductive Fin where
   | FINISHED | FAILED | KILLED
@@ -405,6 +417,14 @@ def run (c : Cfg) (k : Kind) (b : Beh) (ops : List Op) : Outcome :=
     let o := runFrom c s ops
     { o with res := r :: o.res }
 
+/-- prepareTaskCmd: is the child made the leader of a process group of its own? For every command shape —
+    the operating-system facts of this model ("SIGKILL to the group of the child ends the child and the helpers
+    in its group") are about that group. -/
+def ownGroup : Shape → Bool := fun _ => true
+
+/-- The run of a task whose command has the given shape: the shape has no influence. -/
+def runIn (c : Cfg) (k : Kind) (b : Beh) (_shape : Shape) (ops : List Op) : Outcome := run c k b ops
+
 /-- is anything of the task's process groups still alive -/
 def St.alive (s : St) : Bool := s.child = .running || s.orphans > 0 || s.helpers
 
@@ -467,6 +487,19 @@ def validCase : Kind → Beh → Bool
   | .basic, b | .hook, b => b = .ok || b = .fail || b = .sig || b = .fork || b = .nobin
   | .ctl, b => b = .noport || b = .nobin || b.ready
   | .nodata, b => b = .ok
+
+def Shape.parse? : String → Option Shape
+  | "sh" => some .sh | "sha" => some .sha | "ex" => some .ex | "exa" => some .exa | _ => none
+
+/-- the shape of an input that names none: through the shell; a command that cannot be started is exec'd directly -/
+def Shape.default (b : Beh) : Shape := if b = .nobin then .ex else .sh
+
+/-- the (kind, behaviour, shape) triples the harness can build: a command that cannot be started has no shell
+    form (the shell would start and exit 127); a task without data has no command at all -/
+def validShape : Kind → Beh → Shape → Bool
+  | .nodata, _, s => s = .sh
+  | _, .nobin, s => s = .ex || s = .exa
+  | _, _, _ => true
 
 def Fin.name : Fin → String
   | .FINISHED => "FINISHED" | .FAILED => "FAILED" | .KILLED => "KILLED"
